@@ -665,6 +665,8 @@ theorem handleConnack_np (e : Engine) (c : Connack) (hinv : Inv e) (hx : Extra f
         rw [hv] at this; exact this
       | ok u =>
         simp only []
+        split
+        · exact Res.NP.err _
         have hh1 := hb.h1 hst
         have he1 := hx.h1e hst
         have hconn : ∀ id ∈ e.highQ ++ e.pendingWC, isConnectOp e id = true := by
@@ -770,6 +772,12 @@ theorem handleConnack_ok_state (e : Engine) (c : Connack) (h : (e.handleConnack 
         cases x <;> cases h
       | ok u =>
         simp only []
+        rw [hv] at h
+        simp only [] at h
+        split at h
+        · cases h
+        rename_i hspc
+        rw [if_neg hspc]
         let e1 : Engine := { e with state := .connected, hasConnected := true, settings := some (e.buildSettings c), connackDeadline := none, outRes := e.outRes.reset (c.topicAliasMaximum.getD 0), inRes := e.inRes.reset, pingDeadline := none, nextPing := (if (e.buildSettings c).serverKeepAlive > 0 then some (e.now + (e.buildSettings c).serverKeepAlive * 1000) else none) }
         let e2 := e1.initSlowStart
         have hst2 : e2.state = .connected := by
